@@ -27,6 +27,10 @@ type prefixState struct {
 // without the Huffman bit, a printable octet.
 var alpha16 = []byte{0x00, 0x01, 0x10, 0x20, 0x21, 0x3f, 0x40, 0x41, 0x61, 0x7e, 0x7f, 0x81, 0xbe, 0xbf, 0xc0, 0xff}
 
+// alpha14 = alpha16 without 10 (never-indexed: same parse path as 00 apart from the flag) and 7e
+// (name index 62 with a 6-bit prefix; 7f 00 / be / bf / c0 stay): the longest strings (DESIGN: 14 octets)
+var alpha14 = []byte{0x00, 0x01, 0x20, 0x21, 0x3f, 0x40, 0x41, 0x61, 0x7f, 0x81, 0xbe, 0xbf, 0xc0, 0xff}
+
 func buildPrefixes(h *harness, maxStr int) []*prefixState {
 	type stepT struct {
 		block   []byte
@@ -415,7 +419,8 @@ func partDecoder(h *harness, stage string) {
 			{"P5 all-256 maxstr=1", all256, 2, 1, false, false},
 			{"P5 alpha16 maxstr=1", alpha16, 5, 1, false, false},
 			{"P5 alpha16 maxstr=2", alpha16, 5, 2, false, false},
-			{"P2b alpha16", alpha16, 6, 0, false, true},
+			{"P2b alpha16", alpha16, 5, 0, false, true},
+			{"P2b alpha14", alpha14, 6, 0, false, true},
 		}
 	} else {
 		spaces = []space{
@@ -428,6 +433,7 @@ func partDecoder(h *harness, stage string) {
 		}
 	}
 	h.rep.Info["p2_alphabet16"] = hx(alpha16)
+	h.rep.Info["p2_alphabet14"] = hx(alpha14)
 	h.rep.Info["p2c_alphabet"] = hx(alphaInt)
 	dr := &decRun{h: h, feats: map[uint64]struct{}{}}
 	defer dr.flush()
